@@ -6,3 +6,5 @@ pub mod refmodel;
 mod stubs;
 #[cfg(kani)]
 mod c16;
+#[cfg(kani)]
+mod c18;
